@@ -233,6 +233,14 @@ static void reload_config(UNUSED_ARG(int fd), UNUSED_ARG(short event), UNUSED_AR
     conf_read(config_filename);
 }
 
+#if defined(IAUTHD_C_VERIF)
+/* Verification hook: lets a test place a reload between two input lines. */
+void verif_reload(void)
+{
+    reload_config(-1, 0, NULL);
+}
+#endif
+
 static void main_cleanup(void)
 {
     if (sigusr1_evt)
